@@ -96,10 +96,10 @@ def stored_patches(pid: str):
 
     root = os.path.dirname(os.path.dirname(os.path.abspath(__file__)))
     out = []
-    for pth in sorted(glob.glob(os.path.join(root, "benign", pid, "patch*.diff"))):
-        out.append({"name": f"benign/{pid}/{os.path.basename(pth)}", "expect": "silent", "patch": pth})
-    for pth in sorted(glob.glob(os.path.join(root, "seeded", pid, "patch*.diff"))):
-        out.append({"name": f"seeded/{pid}/{os.path.basename(pth)}", "expect": "violation", "patch": pth})
+    for pth in sorted(glob.glob(os.path.join(root, "benign", pid, "patch*.diff")) + glob.glob(os.path.join(root, "benign", pid + "-*", "patch*.diff"))):
+        out.append({"name": f"benign/{os.path.basename(os.path.dirname(pth))}/{os.path.basename(pth)}", "expect": "silent", "patch": pth})
+    for pth in sorted(glob.glob(os.path.join(root, "seeded", pid, "patch*.diff")) + glob.glob(os.path.join(root, "seeded", pid + "-*", "patch*.diff"))):
+        out.append({"name": f"seeded/{os.path.basename(os.path.dirname(pth))}/{os.path.basename(pth)}", "expect": "violation", "patch": pth})
     return out
 
 
